@@ -96,6 +96,10 @@ func VerifC19Shared() {
 		bname = "u"
 	}
 	blocks := []gBlock{{facts: []gAtom{{name: bname, c: 10}}}}
+	if vChoose("three-blocks", 2) == 1 {
+		// three blocks: the envelope's block slice then has spare capacity (len 3, cap 4)
+		blocks = append(blocks, gBlock{facts: []gAtom{{name: "p", c: 11}}}, gBlock{facts: []gAtom{{name: "p", c: 12}}})
+	}
 	g := gBuildToken(authority, blocks)
 	tok := g.tok
 	if vChoose("reloaded", 2) == 1 {
